@@ -44,10 +44,9 @@ pub fn run_cell(ctx: &Ctx, plan: &LawPlan, min_n: u64) -> Option<LawOutcome> {
     };
     let law = reflaw(cell)?;
     let seed = hseed(&[ctx.seed, cell.hash64(), 0x1A3]);
-    let fill = |rng: &mut BaseRng, out: &mut [f64]| sampler.fill(rng, out);
     let out = check_law(&LawJob {
         cell,
-        sampler: &fill,
+        sampler: crate::stats::Src::Dyn(sampler.as_ref()),
         law: &law,
         n: plan.n,
         seed,
